@@ -5,3 +5,4 @@ import Wpull.FtpDriver
 import Wpull.HttpWirePy
 import Wpull.HttpWire
 import Wpull.HttpWireDriver
+import Wpull.HttpWireSpec
